@@ -50,7 +50,7 @@ func init() {
 			cfg := CacheCfg{Expiry: "writing", TTL: 100, Executor: ex, ClockStart: 1 << 40}
 			for _, op := range []string{"set 1", "inv 1", "sea 1 50", "get 1", "cw 1", "all"} {
 				p := concParams{Label: "clock‖" + op, Cfg: cfg, Setup: []string{"set 1"}, Threads: [][]string{{"adv 100"}, {op, "getq 1"}}, Oracles: []string{"expired"}}
-				jobs = append(jobs, &Job{Scenario: "cache.conc", Params: js(p), PB: 2, Coarse: true, Shards: 1, BudgetS: 30})
+				jobs = append(jobs, &Job{Scenario: "cache.conc", Params: js(p), PB: 2, Coarse: true, Shards: 1, BudgetS: 30, Need: []string{"seq-equiv-checked"}})
 			}
 		}
 		return jobs
